@@ -209,31 +209,30 @@ def run_cli(res, ast):
         res.check(not writes and not clears, "CLI-CONCAT", f"{HPBF}|main|append-only", w0, "`code` must only ever be appended to")
     # ------------------------------------------------------------------ mode
     eb = ec["node"]["body"]
-    modes = [i for i in walk_t(eb, "If") if strip_paren(i["cond"])["t"] == "Let" and path_name(strip_paren(strip_paren(i["cond"])["expr"])) == "limit"]
+    import pm
+    sigp = [p_["pat"]["name"] for p_ in ec["node"]["sig"]["inputs"] if p_["t"] == "Arg" and p_["pat"]["t"] == "PIdent"]
     okm = False
-    why = "no `if let Some(limit) = limit` chain"
-    if len(modes) == 1:
-        i = modes[0]
-        t1 = ast.src1(HPBF, i["then"], 300).replace(" ", "")
-        lim_ok = "cxt.budget=limit;" in t1 and "exec.execute_limited(&mutcxt)?" in t1 and "execute(" not in t1.replace("execute_limited(", "")
-        e1 = strip_paren(i["else"]) if i["else"] else None
-        safe_ok = unsafe_ok = False
-        if e1 is not None and e1["t"] == "If" and path_name(strip_paren(e1["cond"])) == "safe":
-            t2 = ast.src1(HPBF, e1["then"], 300).replace(" ", "")
-            safe_ok = t2 == "{exec.execute(&mutcxt)?;}"
-            e2 = e1["else"]
-            if e2 is not None:
-                calls = [m for m in walk_t(e2, "MethodCall") if m["method"] in ("make_accessible", "execute_unsafe", "execute", "execute_limited")]
-                names = [m["method"] for m in calls]
-                if names == ["make_accessible", "execute_unsafe"]:
-                    a0, a1 = calls[0]["args"]
-                    v0, v1 = int_lit(a0), int_lit(a1)
-                    unsafe_ok = v0 is not None and v1 is not None and v0 == -v1 and v1 >= 1 << 20 and \
-                        ast.src1(HPBF, calls[0]["receiver"]).replace(" ", "") == "cxt.memory"
-        okm = lim_ok and safe_ok and unsafe_ok
-        why = f"limit branch ok: {lim_ok}, checked branch ok: {safe_ok}, static branch ok (symmetric pre-allocation then execute_unsafe): {unsafe_ok}"
+    why = "execute_code does not have the parameters (code, kind, opt, limit, safe)"
+    if len(sigp) == 5:
+        env0 = {"__v_limit": sigp[3], "__v_safe": sigp[4]}
+        pat = ("if let Some(__v_l) = __v_limit { __v_cxt.budget = __v_l; __v_exec.execute_limited(&mut __v_cxt)?; } "
+               "else if __v_safe { __v_exec.execute(&mut __v_cxt)?; } "
+               "else { __v_cxt.memory.make_accessible(__e_lo, __e_hi); unsafe { __v_exec.execute_unsafe(&mut __v_cxt)? }; }")
+        hits = [st for st in walk_t(eb, "ExprStmt") if st["expr"]["t"] == "If"]
+        b_ = None
+        for st in hits:
+            b_ = pm.match_expr(st["expr"], pat, env0)
+            if b_:
+                break
+        why = "the mode chain must be: `if let Some(l) = limit { cxt.budget = l; exec.execute_limited(&mut cxt)?; } else if safe { exec.execute(&mut cxt)?; } else { cxt.memory.make_accessible(-K, K); unsafe { exec.execute_unsafe(&mut cxt)? }; }`"
+        if b_:
+            v0, v1 = int_lit(b_["__e_lo"]), int_lit(b_["__e_hi"])
+            okm = v0 is not None and v1 is not None and v0 == -v1 and v1 >= 1 << 20
+            why = f"static mode pre-allocates [{v0}, {v1}): it must be symmetric and large"
+            cxt_name = b_["__v_cxt"]
     res.check(okm, "CLI-MODE", f"{HPBF}|execute_code|mode-chain", where(HPBF, ec["node"], "execute_code"), why)
-    ctx = [s for s in eb["stmts"] if s["t"] == "Local" and s["pat"].get("name") == "cxt"]
+    cxt_name = b_["__v_cxt"] if (len(sigp) == 5 and b_) else "cxt"
+    ctx = [s for s in eb["stmts"] if s["t"] == "Local" and s["pat"].get("name") == cxt_name]
     res.check(len(ctx) == 1 and ast.src1(HPBF, ctx[0]["init"]).replace(" ", "") == "Context::<C>::with_stdio()", "CLI-MODE",
               f"{HPBF}|execute_code|stdio", where(HPBF, ec["node"], "execute_code"), "the context must be Context::<C>::with_stdio()")
     unsafe_calls = [m for f in ast.find_fns(HPBF) for m in walk_t(f["node"].get("body") or {}, "MethodCall") if m["method"] == "execute_unsafe"]
